@@ -11,7 +11,7 @@ use std::io::{Error, Read};
 
 // Parse a Number
 pub(crate) fn parse_number<R: Read>(scanner: &mut Scanner<R>) -> Result<Number, Error> {
-    let decimal = parse_decimal(scanner)?;
+    let (decimal, _) = parse_decimal_text(scanner)?;
 
     let mut exponent: Option<String> = None;
     let mut unit: Option<&'static Unit> = None;
@@ -54,7 +54,7 @@ fn parse_exponent<R: Read>(scanner: &mut Scanner<R>) -> Result<String, Error> {
         "".to_string()
     };
 
-    let exponent = parse_decimal(scanner)?;
+    let (exponent, _) = parse_decimal_text(scanner)?;
 
     Ok(format!("e{sign}{exponent}"))
 }
@@ -74,6 +74,12 @@ fn parse_unit<R: Read>(scanner: &mut Scanner<R>) -> Result<String, Error> {
 
 // Parse Decimal part of a number
 pub(crate) fn parse_decimal<R: Read>(scanner: &mut Scanner<R>) -> Result<f64, Error> {
+    parse_decimal_text(scanner).map(|(_, num)| num)
+}
+
+// Parse Decimal part of a number, gives the text that was read (without '_' separators) and its value.
+// A number with an exponent is converted from its whole text, converting the decimal part on its own first rounds twice.
+fn parse_decimal_text<R: Read>(scanner: &mut Scanner<R>) -> Result<(String, f64), Error> {
     let mut id = Vec::new();
 
     while !scanner.is_eof && (scanner.is_digit() || scanner.is_any_of("_.-")) {
@@ -87,7 +93,7 @@ pub(crate) fn parse_decimal<R: Read>(scanner: &mut Scanner<R>) -> Result<f64, Er
     let str = String::from_utf8_lossy(&id).to_string();
 
     match str.parse::<f64>() {
-        Ok(num) => Ok(num),
+        Ok(num) => Ok((str, num)),
         Err(err) => {
             scanner.make_generic_err(&format!("Invalid decimal '{str}'. Parse error: {err}"))
         }
